@@ -503,7 +503,7 @@ class DiffXReader(object):
         # First, determine the line endings that we're going to be working
         # with.
         try:
-            if line_endings:
+            if line_endings is not None:
                 # An explicit line ending type was specified. Validate it and
                 # get the newline characters, encoding it for the byte string.
                 newline = get_newline_for_type(line_endings,
